@@ -202,7 +202,15 @@ def _pad_rat(t, raster):
         if x[0] == 'index' and x[1][0] == 'call' and str(x[1][1]).endswith('get_dataarray_resolution') and x[2][0] == 'const' and x[2][1] in (0, 1):
             if not x[1][2] or x[1][2][0] != raster:
                 raise ValueError('cell sizes of something else than the raster: %s' % (x[1][2],))
-            return Rat.sym('cellsize_x' if x[2][1] == 0 else 'cellsize_y')
+            # get_dataarray_resolution(agg, xdim='x', ydim='y') -> (size along xdim, size along ydim): which axis a component
+            # measures depends on the dimension names it was called with
+            b_ = dict(zip(('agg', 'xdim', 'ydim'), x[1][2]))
+            b_.update(dict(x[1][3]))
+            dim = b_.get('xdim' if x[2][1] == 0 else 'ydim', ('const', 'x' if x[2][1] == 0 else 'y'))
+            axis = {('param', 'x'): 'x', ('const', 'x'): 'x', ('param', 'y'): 'y', ('const', 'y'): 'y'}.get(dim)
+            if axis is None:
+                raise ValueError('cell size along an unrecognised dimension: %s' % (dim,))
+            return Rat.sym('cellsize_' + axis)
         if x[0] == 'const' and isinstance(x[1], (int, float)) and not isinstance(x[1], bool):
             return to_rat(x)
         if x[0] == 'call' and len(x[2]) == 1:
